@@ -330,6 +330,8 @@ package fsm
 //@   requires yield.maxSize == 0
 //@   requires [sizer] forall a Int, b Int :: scost(*sf, a, b) <= a + b
 //@   requires [pairBound] forall k Bytes :: (*reader).vP[k] ==> blen(k) + blen((*reader).vV[k]) < 3000000      // key <= 1 KiB, value <= 2 MiB (request validation, C16)
+// every chunk handed to the consumer - in particular the FIRST one, which is all a unary read takes - is flagged 'more' exactly when pairs of the range remain beyond it
+//@   before yieldContract assert [C09.chunk.more] r.More == (yield.pairs + r.Count < cnt((*reader).vP, bytesOf((*opts).LowerBound), bytesOf((*opts).UpperBound))) && (*limit > 0 ==> yield.pairs + r.Count <= *limit)
 //@   ensures [C09.size]  yield.maxSize < 4193280 + 64      // every chunk stays below maxRangeSize + framing < 4 MiB
 //@   ensures [C09.limit] !yield.stopped && *limit > 0 ==> yield.pairs <= *limit
 //@   ensures [C09.all]   !yield.stopped ==> yield.pairs == (*limit > 0 && *limit < cnt((*reader).vP, bytesOf((*opts).LowerBound), bytesOf((*opts).UpperBound)) ? *limit : cnt((*reader).vP, bytesOf((*opts).LowerBound), bytesOf((*opts).UpperBound)))
